@@ -3,6 +3,7 @@
 package api
 
 import (
+	"sync"
 	"time"
 
 	v "github.com/VKCOM/statshouse/internal/zzverif"
@@ -189,4 +190,29 @@ func Harness_C23_bucket_invalidate() {
 		v.Assert("C23.bucket.listed_chunk_invalidated_others_untouched", v.Or(v.And(listed, c.invalidatedAt == 99), v.And(!listed, c.invalidatedAt == 7)))
 	}
 	v.Reach("C23.bucket.end")
+}
+
+// cache2.setLimits: for configured limits (hard from {-1,0,1,2,5,10,100,1000}, soft arbitrary in -10..1000) the stored limits are
+// consistent: no limit at all (both 0), or 0 < soft < hard. Requests block while the cache is above the
+// hard limit and the trimmer only works down to the soft limit, so a soft limit at or above the hard
+// one would leave requests blocked with nothing trimming.
+func Harness_C23_limits_consistent() {
+	c := &cache2{}
+	c.trimCond = sync.NewCond(&c.mu)
+	c.allocCond = sync.NewCond(&c.mu)
+	hard := []int{-1, 0, 1, 2, 5, 10, 100, 1000}[v.Choice(8)] // concrete: the default soft limit is 0.8 x hard in floating point
+	soft := int(v.NondetIntRange(-10, 1000))
+	c.setLimits(cache2Limits{maxSize: hard, maxSizeSoft: soft})
+	got := c.limits
+	if hard <= 0 {
+		v.Assert("C23.limits.no_hard_limit_means_no_soft_limit", got.maxSize == 0 && got.maxSizeSoft == 0)
+	} else {
+		v.Assert("C23.limits.hard_limit_kept", got.maxSize == hard)
+		v.Assert("C23.limits.soft_limit_below_hard_limit", got.maxSizeSoft < got.maxSize)
+		v.Assert("C23.limits.soft_limit_not_negative", got.maxSizeSoft >= 0)
+		if soft > 0 && soft < hard {
+			v.Assert("C23.limits.valid_soft_limit_kept", got.maxSizeSoft == soft)
+		}
+	}
+	v.Reach("C23.limits.end")
 }
